@@ -6,6 +6,7 @@ import (
 	"os"
 	"os/exec"
 	"path/filepath"
+	"runtime"
 	"strings"
 	"testing"
 	"time"
@@ -315,6 +316,9 @@ func c03Materialise(c C03Case) (stream []byte, hdrTouched bool, lenRatio float64
 	if h, err := kfmt.ParseHeader(kfmt.FromBytes(stream)); err == nil && h.BlockSize > 0 {
 		declared = h.BlockSize
 	}
+	if _, bsz, ok := c03ReaderView(kfmt.FromBytes(stream)); ok && bsz > declared {
+		declared = bsz // the layout selected by a forged version field
+	}
 	return
 }
 
@@ -341,6 +345,21 @@ func runC03(r *vrt.Run, sb *Sandbox, c C03Case, maxDeclared int) (o c03Out) {
 	res := sb.Decode(stream, jobs, budget)
 	o.status = "outcome:" + res.Status
 	o.nontrivial = hdrTouched || res.Reached > 0
+	if res.BlockSize > declared {
+		// the reader took a larger block size from the header than the independent parser did (a forged version
+		// field selects an older header layout): the rules are stated in terms of what the reader declared
+		r.Label("reader-declared-a-larger-block-than-the-v6-layout:" + sizeClass(res.BlockSize))
+		declared = res.BlockSize
+		if declared > maxDeclared {
+			switch res.Status {
+			case "ok", "err":
+			default:
+				o.status = "outcome:not-judged-reader-declared-block-above-cap"
+				return
+			}
+		}
+		budget = c03Budget(declared, nblocks)
+	}
 	switch res.Status {
 	case "ok", "err":
 		return
@@ -354,10 +373,16 @@ func runC03(r *vrt.Run, sb *Sandbox, c C03Case, maxDeclared int) (o c03Out) {
 		// a hang only if it reproduces alone with 5x the budget
 		r.Tick()
 		solo := &Sandbox{ASLimit: sb.ASLimit}
-		res2 := solo.Decode(stream, jobs, 5*budget)
+		patience := 5
+		if l := loadPerCPU(); l > 2 {
+			// the machine is heavily oversubscribed (other shards, other work): a second opinion needs more patience
+			patience = 15
+			r.Label("solo-rerun-with-15x-budget-under-load")
+		}
+		res2 := solo.Decode(stream, jobs, time.Duration(patience)*budget)
 		solo.Close()
 		if res2.Status == "timeout" {
-			o.msg = fmt.Sprintf("decoding does not terminate: no result within %v (declared block size %d, %d blocks, jobs %d), reproduced alone with 5x the budget; %s", 5*budget, declared, nblocks, jobs, firstLines(res2.Detail, 30))
+			o.msg = fmt.Sprintf("decoding does not terminate: no result within %v (declared block size %d, %d blocks, jobs %d), reproduced alone with %dx the budget; %s", time.Duration(patience)*budget, declared, nblocks, jobs, patience, firstLines(res2.Detail, 30))
 			return
 		}
 		o.status = "outcome:slow-not-reproduced"
@@ -408,11 +433,11 @@ func runC03(r *vrt.Run, sb *Sandbox, c C03Case, maxDeclared int) (o c03Out) {
 // busy one).
 func c03LooksLikeKF16(stream []byte) bool {
 	b := kfmt.FromBytes(stream)
-	h, err := kfmt.ParseHeader(b)
-	if err != nil || h.BlockSize <= 0 {
+	pos, bsz, ok := c03ReaderView(b)
+	if !ok || bsz <= 0 {
 		return false
 	}
-	pos := h.Bits
+	h := struct{ BlockSize int }{bsz}
 	for i := 0; i < 64; i++ {
 		lw, e1 := b.Read(pos, 5)
 		if e1 != nil {
@@ -429,6 +454,57 @@ func c03LooksLikeKF16(stream []byte) bool {
 		pos += 5 + w + int(v)
 	}
 	return false
+}
+
+// c03ReaderView tells where the first block starts and which block size is declared, for the header layout that
+// the version field selects (a forged version makes the reader use an older layout: one checksum-flag bit instead
+// of two, no size field before version 5, a 16-bit / 4-bit / absent header checksum). Restated from the format
+// history; it only positions the KF-16 signature.
+func c03ReaderView(b *kfmt.Bits) (firstBlock, blockSize int, ok bool) {
+	magic, e1 := b.Read(0, 32)
+	ver, e2 := b.Read(32, 4)
+	if e1 != nil || e2 != nil || magic != 0x4B414E5A || ver > 6 {
+		return 0, 0, false
+	}
+	pos := 36
+	if ver >= 6 {
+		pos += 2
+	} else {
+		pos++
+	}
+	pos += 5 + 48
+	bs, e3 := b.Read(pos, 28)
+	if e3 != nil {
+		return 0, 0, false
+	}
+	pos += 28
+	switch {
+	case ver >= 5:
+		m, e := b.Read(pos, 2)
+		if e != nil {
+			return 0, 0, false
+		}
+		pos += 2 + 16*int(m)
+		if ver >= 6 {
+			pos += 15 + 24
+		} else {
+			pos += 16
+		}
+	default:
+		pos += 6 + 4
+	}
+	return pos, int(bs) << 4, true
+}
+
+// loadPerCPU is the 1-minute load average divided by the number of processors (0 when unknown).
+func loadPerCPU() float64 {
+	b, err := os.ReadFile("/proc/loadavg")
+	if err != nil {
+		return 0
+	}
+	var l float64
+	fmt.Sscanf(string(b), "%f", &l)
+	return l / float64(max(1, runtime.NumCPU()))
 }
 
 func firstLines(s string, n int) string {
